@@ -105,8 +105,10 @@ def tlc_mc(module, cfg, name, workers=8, timeout=900, coverage=False, expect_err
     md = workdir("mc_" + name)
     extra = ["-coverage", "1"] if coverage else []
     t = time.time()
+    env = dict(os.environ)
+    env["JAVA_TOOL_OPTIONS"] = (env.get("JAVA_TOOL_OPTIONS", "") + " -Djava.io.tmpdir=" + md).strip()
     try:
-        r = subprocess.run(tlc_cmd(workers, md, cfg, module, extra), cwd=SPEC, stdout=subprocess.PIPE,
+        r = subprocess.run(tlc_cmd(workers, md, cfg, module, extra), cwd=SPEC, env=env, stdout=subprocess.PIPE,
                            stderr=subprocess.STDOUT, text=True, timeout=timeout)
     except subprocess.TimeoutExpired:
         raise ToolError("TLC timed out on %s/%s" % (module, cfg))
@@ -171,7 +173,7 @@ def tlc_trace(module, cfg, trace_path, name, timeout=600):
     md = workdir("tv_" + name)
     env = dict(os.environ)
     env["TRACE"] = trace_path
-    env["JAVA_TOOL_OPTIONS"] = "-Xss1g -Xmx3g"
+    env["JAVA_TOOL_OPTIONS"] = "-Xss1g -Xmx3g -Djava.io.tmpdir=" + md
     try:
         r = subprocess.run(tlc_cmd(1, md, cfg, module), cwd=SPEC, env=env, stdout=subprocess.PIPE,
                            stderr=subprocess.STDOUT, text=True, timeout=timeout)
